@@ -82,7 +82,7 @@ def run(tools, seed, tier):
             byid = {c["id"]: c for c in cases}
             for k, c in enumerate(cases):
                 c["repeat"] = sz["repeat_adv"] if "adv" in (c.get("tags") or []) else sz["repeat"]
-                c["fmts"] = (k % sz["fmt_every"] == 0)
+                c["fmts"] = (k % sz["fmt_every"] == 0) or bool(c.get("fmts_always"))
             obs = l2.run_impl(tools, cases, root)
             t_impl = time.time() - t0
             # facts + type check of every output
